@@ -24,6 +24,7 @@ for d in sorted(os.listdir(base)):
                 alarms.append((pid, lines[:3]))
     finally:
         subprocess.run(['git', '-C', REPO, 'checkout', '--', '.'])
+        subprocess.run(['git', '-C', REPO, 'clean', '-fdq', 'src'])   # files a patch added
         subprocess.run(['git', '-C', REPO, 'clean', '-fdq', 'src'])
     res[d] = alarms
     print(d, 'SILENT' if not alarms else 'ALARM')
